@@ -89,6 +89,7 @@ fn main() {
     match mode.as_str() {
         "c18" => meta_mode::c18(seed, thorough, &mut out),
         "c24" => client_mode::c24(seed, thorough, &mut out),
+        "c20" => meta_mode::c20(seed, thorough, &mut out),
         _ => panic!("unknown mode"),
     }
     let w = |name: &str, lines: &Vec<String>| {
